@@ -189,8 +189,15 @@ def run_check(pid, tier, seed, a, scratch, t0):
     if tasks:
         with ctx.Pool(processes=min(a.jobs, max(1, len(tasks))), initializer=_init_sym, initargs=(gendir,),
                       maxtasksperchild=8) as pool:
+            nerr = 0
             for r in pool.imap_unordered(_explore, tasks, chunksize=1):
                 results.append(r)
+                nerr += bool(r['errors'])
+                if nerr >= 60:
+                    # the tree under test breaks the harnesses wholesale: stop, replay what was found, report (never "holds")
+                    print('  giving up after %d cases with harness errors' % nerr, flush=True)
+                    pool.terminate()
+                    break
                 if a.v:
                     print('  case %-50s paths=%-6d q=%-7d cand=%s exh=%s %.1fs %s %s %s' % (
                         r['case'], r['paths'], r['queries'], r.get('cand_counts'), r['exhausted'],
